@@ -216,3 +216,32 @@ def api_lines(world, dump, command, cfg, count=None, show_tid=False, color=True)
             break
         out += str(x).splitlines()
     return out
+
+
+def traces_via_api(world, stream, tmap=(), table=None, cfg=None, tid=None):
+    """the stream as a version-2 dump through PyKdebugParser.traces: [(k of the completing event, k of the first event, text)]"""
+    from pykdebugparser.pykdebugparser import PyKdebugParser
+    d = Dump(world, stream, list(tmap))
+    p = PyKdebugParser()
+    if cfg:
+        apply_cfg(world, p, cfg)
+    if tid is not None:
+        p.filter_tid = world.ctid(tid)
+    out = []
+    for t in p.traces(io.BytesIO(d.blob), table if table is not None else world.codes):
+        out.append((d.k_of(t.ktraces[-1]), d.k_of(t.ktraces[0]), str(t)))
+    return out, d
+
+
+def traces_direct(world, stream, table=None):
+    """the same stream fed to a TracesParser directly (no filters)"""
+    from pykdebugparser.traces_parser import TracesParser
+    p = TracesParser(table if table is not None else world.codes, {}, {})
+    out = []
+    conc = [world.concrete(a, k + 1) for k, a in enumerate(stream)]
+    ident = {id(e): k + 1 for k, e in enumerate(conc)}
+    for e in conc:
+        r = p.feed(e)
+        if r is not None:
+            out.append((ident.get(id(r.ktraces[-1]), -1), ident.get(id(r.ktraces[0]), -1), str(r)))
+    return out
